@@ -335,10 +335,12 @@ def run(tier, seed):
     run.rule = ("`value -> u1;...;un` for ordered lists of 2..6 conformable database units from every dimensionality "
                 "class with at least two units (descending, ascending, repeated, random order; ; and , separators) and "
                 "values 0/tiny/huge/random/exact multiples/just below multiples in both signs; time values through the "
-                "automatic breakdown; non-conformable members/values must be refused; non-trivial = distinct query "
+                "automatic breakdown; non-conformable members/values must be refused; lists written in prefixed / plural spellings "
+                "(ms;us, km;m) whose printed parts are read back, lists with a float-valued unit (semitone) judged to 1e-9, lists "
+                "with a negative-valued unit (must be refused or keep the sign law); non-trivial = distinct query "
                 "whose parts were re-added and checked against the four laws")
     run.assumptions = ["parts are read from the reply's exact raw values; printed per-entry numerals are C06's business",
-                       "only positive exact-valued units are used in lists"]
+                       "the random lists use positive exact-valued units; float-valued and negative-valued units have their own cases"]
     n_lists, n_dur = (60000, 30000) if tier == "quick" else (1500000, 600000)
     per = nproc()
     for res in shard_map(work, [None] * per, (seed, n_lists // per + 1, n_dur // per + 1)):
